@@ -164,3 +164,34 @@ Fixpoint serve_seq (rel : bytes -> pool -> pool) (p : pool) (reqs : list (nat * 
       let '(p2, ws) := serve_seq rel p1 t in
       (p2, w :: ws)
   end.
+
+(* ---------- pool discipline: which buffer (by identity) each in-flight render holds ----------
+   Renders may overlap: a request takes a buffer when it starts (GetBuffer) and gives it back when
+   ServeHTTPBuffered returns (the single deferred ReleaseBuffer).  [p_free]: buffers in the pool;
+   [p_held]: buffers held by in-flight requests; [p_next]: the next never-used identity (sync.Pool.New). *)
+Record pstate := { p_free : list nat; p_held : list nat; p_next : nat }.
+Definition pinit : pstate := {| p_free := []; p_held := []; p_next := O |}.
+Inductive pev :=
+| EGet (pick : nat)     (* a request starts: GetBuffer, the pool choosing which free buffer (or a new one) *)
+| ERel (i : nat)        (* the i-th in-flight request returns: ReleaseBuffer, once *)
+| ERelTwice (i : nat).  (* a request that releases its buffer twice (not what handler.go does; for the witness) *)
+Definition pstep (s : pstate) (e : pev) : pstate :=
+  match e with
+  | EGet pick =>
+      match nth_error (p_free s) pick with
+      | Some b => {| p_free := remove_nth pick (p_free s); p_held := b :: p_held s; p_next := p_next s |}
+      | None => {| p_free := p_free s; p_held := p_next s :: p_held s; p_next := S (p_next s) |}
+      end
+  | ERel i =>
+      match nth_error (p_held s) i with
+      | Some b => {| p_free := b :: p_free s; p_held := remove_nth i (p_held s); p_next := p_next s |}
+      | None => s
+      end
+  | ERelTwice i =>
+      match nth_error (p_held s) i with
+      | Some b => {| p_free := b :: b :: p_free s; p_held := remove_nth i (p_held s); p_next := p_next s |}
+      | None => s
+      end
+  end.
+Definition prun (tr : list pev) : pstate := fold_left pstep tr pinit.
+Definition single_release (e : pev) : bool := match e with ERelTwice _ => false | _ => true end.
